@@ -56,14 +56,14 @@ type (
 	DirEntry  = fs.DirEntry
 )
 
-func Getenv(k string) string             { return os.Getenv(k) }
-func LookupEnv(k string) (string, bool)  { return os.LookupEnv(k) }
-func Getpid() int                        { return os.Getpid() }
-func Getwd() (string, error)             { return "/work", nil }
-func TempDir() string                    { return "/tmp" }
-func IsNotExist(err error) bool          { return errors.Is(err, fs.ErrNotExist) }
-func IsExist(err error) bool             { return errors.Is(err, fs.ErrExist) }
-func IsPermission(err error) bool        { return errors.Is(err, fs.ErrPermission) }
+func Getenv(k string) string            { return os.Getenv(k) }
+func LookupEnv(k string) (string, bool) { return os.LookupEnv(k) }
+func Getpid() int                       { return os.Getpid() }
+func Getwd() (string, error)            { return "/work", nil }
+func TempDir() string                   { return "/tmp" }
+func IsNotExist(err error) bool         { return errors.Is(err, fs.ErrNotExist) }
+func IsExist(err error) bool            { return errors.Is(err, fs.ErrExist) }
+func IsPermission(err error) bool       { return errors.Is(err, fs.ErrPermission) }
 
 // ---- the simulated disk ----
 
@@ -76,7 +76,7 @@ type node struct {
 }
 
 type imgFile struct {
-	Data    string `json:"data"`              // base64
+	Data    string `json:"data"` // base64
 	Mode    uint32 `json:"mode"`
 	Dir     bool   `json:"dir,omitempty"`
 	Durable string `json:"durable,omitempty"` // base64
